@@ -446,7 +446,9 @@ def scan_rules(ctx):
     e5eq = has_exit(lambda h, ca, c, pol: c[0] == "op" and c[1] == "Eq" and rem_p in c[2] and any(is_rem_at_lv(x) for x in c[2]) and pol is True)
     # `r > remainder` or (after the equality exit) the equivalent `r >= remainder`
     e5gt = has_exit(lambda h, ca, c, pol: c[0] == "op" and c[1] in ("Lt", "Le") and c[2][0] == rem_p and is_rem_at_lv(c[2][1]) and pol is True)
-    if not e5eq:
+    # one merged exit `stored remainder >= remainder` covers the equality stop
+    e5ge = has_exit(lambda h, ca, c, pol: c[0] == "op" and c[1] == "Le" and c[2][0] == rem_p and is_rem_at_lv(c[2][1]) and pol is True)
+    if not e5eq and not e5ge:
         probs.append("the run search does not stop on `stored remainder == remainder`")
     if not e5gt:
         probs.append("the run search does not stop on `stored remainder > remainder` (sorted run)")
@@ -462,7 +464,24 @@ def scan_rules(ctx):
     alts = r[1] if r[0] == "phi" else (r,)
     probs = []
     pres = [a for a in alts if a[0] == "adt" and dict(a[3]).get("present") == const(True)]
-    if len(pres) != 1:
+    maybe = [a for a in alts if a[0] == "adt" and dict(a[3]).get("present") not in (const(True), const(False))]
+    if not pres and len(maybe) == 1:
+        # one record built after the search: present = (stored remainder at the final cursor == remainder)
+        d = dict(maybe[0][3])
+        pa = d["present"][1] if d["present"][0] == "phi" else (d["present"],)
+        posa = d.get("position", ("x",))
+        posa = posa[1] if posa[0] == "phi" else (posa,)
+        for a in pa:
+            if a == const(False):
+                continue
+            slot = [x[2][1] for x in (a[2] if a[0] == "op" and a[1] == "Eq" else ()) if is_rem_at_lv(x)]
+            if not (a[0] == "op" and a[1] == "Eq" and rem_p in a[2] and slot):
+                probs.append("present is %s, expected `stored remainder == remainder`" % fmt(a)[:120])
+            elif slot[0] not in posa:
+                probs.append("present is decided at slot %s but position reports %s" % (fmt(slot[0]), fmt(d.get("position"))[:80]))
+        if d.get("start_of_run", ("x",))[0] != "adt" or d["start_of_run"][2] != "Some":
+            probs.append("a possibly-present result without a start_of_run")
+    elif len(pres) != 1:
         probs.append("%d result records with present: true" % len(pres))
     else:
         d = dict(pres[0][3])
